@@ -266,6 +266,24 @@ def multi_cases(ctx):
                 for j, q in enumerate(qs):
                     if np.abs(r.data[j] - q / np.linalg.norm(q)).max() > T12:
                         ctx.fail(cid, 'Quaternion.unit', 'mismatch', dict(P, law='unit', j=j), 'value %d is not the normalised value %d' % (j, j))
+        # the documented N x 4 array form of the UnitQuaternion constructor: one quaternion per row, each row normalised
+        for form, mkarg in (('Nx4', lambda: np.array([q.copy() for q in qs])),):      # (a list of 4-vectors is a list of values, validated not normalised)
+            cid = 'C14/UnitQuaternion(%s)/multi/M=%d' % (form, M)
+            if ctx.want(cid):
+                ctx.case(cid, key=cid)
+                P = dict(M=M, mode='multi', form=form)
+                ok, r = call(lambda: sm.UnitQuaternion(mkarg()))
+                if not ok:
+                    ctx.fail(cid, 'UnitQuaternion(array)', 'raises:' + type(r).__name__, P, '%r' % (r,))
+                elif len(r.data) != M:
+                    ctx.fail(cid, 'UnitQuaternion(array)', 'mismatch', dict(P, law='count'), 'expected %d values, got %d' % (M, len(r.data)))
+                else:
+                    for j, q in enumerate(qs):
+                        if np.abs(r.data[j] - q / np.linalg.norm(q)).max() > T12:
+                            ctx.fail(cid, 'UnitQuaternion(array)', 'mismatch', dict(P, law='unit', j=j), 'value %d is not the normalised row %d' % (j, j))
+                    ok2, r2 = call(lambda: sm.UnitQuaternion(np.array(r.data) if form == 'Nx4' else [x.copy() for x in r.data]))
+                    if not ok2 or len(r2.data) != M or any(np.abs(x - y).max() > T12 for x, y in zip(r2.data, r.data)):
+                        ctx.fail(cid, 'UnitQuaternion(array)', 'mismatch', dict(P, law='idempotent'), 'second application changes the value')
         # poses: norm() of M values
         for cn, dim in (('SO3', 3), ('SE3', 3), ('SO2', 2), ('SE2', 2)):
             C = getattr(sm, cn)
@@ -363,6 +381,35 @@ def angdiff_cases(ctx):
             ctx.fail(cid, 'base.angdiff', 'mismatch', P, 'array result differs from the element-wise scalar results')
 
 
+def angdiff_forms(ctx):
+    """every container form of either argument gives the element-wise scalar results"""
+    import spatialmath.base as b
+    L = [a for _, a in angle_letters('quick', 0)][::5]
+    arr = np.array(L)
+    rev = arr[::-1].copy() + 0.3
+    mk = {'1d': lambda x: x.copy(), 'list': lambda x: x.tolist(), 'tuple': lambda x: tuple(x.tolist())}
+    for fa, fb in itertools.product(('scalar', '1d', 'list', 'tuple'), ('none', 'scalar', '1d', 'list', 'tuple')):
+        if fa == 'scalar' and fb in ('none', 'scalar'):
+            continue
+        cid = 'C14/angdiff/forms/a=%s/b=%s' % (fa, fb)
+        if not ctx.want(cid):
+            continue
+        ctx.case(cid, key=cid)
+        P = dict(form='%s,%s' % (fa, fb))
+        A_ = 0.7 if fa == 'scalar' else mk[fa](arr)
+        if fb == 'none':
+            ok, r = call(b.angdiff, A_)
+            want = [float(b.angdiff(float(x))) for x in arr]
+        else:
+            B_ = -2.9 if fb == 'scalar' else mk[fb](rev)
+            ok, r = call(b.angdiff, A_, B_)
+            want = [float(b.angdiff(0.7 if fa == 'scalar' else float(x), -2.9 if fb == 'scalar' else float(y))) for x, y in zip(arr, rev)]
+        if not ok:
+            ctx.fail(cid, 'base.angdiff', 'raises:' + type(r).__name__, P, '%r' % (r,))
+        elif np.asarray(r).shape != arr.shape or np.abs(np.asarray(r, dtype=float) - np.array(want)).max() > 1e-12:
+            ctx.fail(cid, 'base.angdiff', 'mismatch', P, 'result for the (%s, %s) forms differs from the element-wise scalar results' % (fa, fb))
+
+
 def shards(tier, seed):
     K = 4 if tier == 'quick' else 12
     return [('m3', k, K) for k in range(K)] + [('m2', k, K) for k in range(K)] + [('vec',), ('twist',), ('angdiff',), ('multi',)]
@@ -382,3 +429,4 @@ def run_shard(ctx, shard):
         multi_cases(ctx)
     else:
         angdiff_cases(ctx)
+        angdiff_forms(ctx)
